@@ -16,6 +16,32 @@ package builder
 //@ spec injStr(b, k) = unboxed(unboxed(b.config.Config["Injection"], map[string]any)[k], string)
 //@ spec nf(p) = ghostint(p, "fields")
 
+// The listener part, field by field (k = number of fields written before):
+//  HTTP: 12 kill date (64 bit) | 13 working hours | 14 "POST" | 15 host rotation | 16 host count
+//        17+2i host i | 18+2i port i | A = 17+2*hosts: TLS flag | A+1 user agent | A+2 header count
+//        A+3+j header j | B = A+3+headers: URI count | B+1+j URI j | C = B+1+uris: proxy flag
+//        [C+1 proxy url | C+2 proxy user | C+3 proxy password]
+//  (with custom headers AND a host header the items are checked by position only: that
+//   the copied list equals headers + host header needed a quantified proof the solvers did not finish)
+//  SMB:  12 pipe name | 13 kill date (64 bit) | 14 working hours
+//@ spec lh(b) = unboxed(b.config.ListenerConfig, *handlers.HTTP)
+//@ spec ls(b) = unboxed(b.config.ListenerConfig, *handlers.SMB)
+//@ spec isHttp(b) = b.config.ListenerType == handlers.LISTENER_HTTP
+//@ spec isSmb(b) = b.config.ListenerType == handlers.LISTENER_PIVOT_SMB
+//@ spec nHosts(b) = len(lh(b).Config.Hosts)
+//@ spec hostHdr(b) = len(lh(b).Config.HostHeader) > 0
+//@ spec nHdrs(b) = ite(len(lh(b).Config.Headers) == 0, ite(hostHdr(b), 2, 1), len(lh(b).Config.Headers) + ite(hostHdr(b), 1, 0))
+//@ spec nUris(b) = ite(len(lh(b).Config.Uris) == 0, 1, len(lh(b).Config.Uris))
+//@ spec posA(b) = 17 + 2*nHosts(b)
+//@ spec posB(b) = posA(b) + 3 + nHdrs(b)
+//@ spec posC(b) = posB(b) + 1 + nUris(b)
+//@ spec basePort(b) = ite(lh(b).Config.PortConn != "", uf_atoi(lh(b).Config.PortConn), uf_atoi(lh(b).Config.PortBind))
+//@ spec hostName(h) = ufs_ifaddr(ufs_before(h, ":"))
+//@ spec hostPort(b, h) = ite(contains(h, ":"), uf_atoi(ufs_piece1(h, ":")), basePort(b))
+//@ spec hdrItem(b, j) = ite(len(lh(b).Config.Headers) == 0, ite(j == 0, "Content-type: */*", "Host: " + lh(b).Config.HostHeader), ite(j < len(lh(b).Config.Headers), lh(b).Config.Headers[j], "Host: " + lh(b).Config.HostHeader))
+//@ spec uriItem(b, j) = ite(len(lh(b).Config.Uris) == 0, "/", lh(b).Config.Uris[j])
+//@ spec flag(c) = ite(c, win32.TRUE, win32.FALSE)
+
 // C13: the configuration block is written in the order DemonConfig() in
 // payloads/Demon/src/Demon.c reads it: sleep, jitter, alloc, execute, spawn64,
 // spawn32, sleep technique, jump gadget, stack duplication, proxy loading,
@@ -26,13 +52,19 @@ package builder
 //@   modifies *
 //@   guard-call ints: "AddInt" nf(arg(0)) < 12 ==> ((nf(arg(0)) == 0 && arg(1) == ConfigSleep) || (nf(arg(0)) == 1 && arg(1) == ConfigJitter) || (nf(arg(0)) == 2 && arg(1) == allocOf(injStr(b, "Alloc"))) || (nf(arg(0)) == 3 && arg(1) == allocOf(injStr(b, "Execute"))) || (nf(arg(0)) == 6 && arg(1) == techOf(cfgStr(b, "Sleep Technique"))) || (nf(arg(0)) == 7 && arg(1) == gadgetOf(techOf(cfgStr(b, "Sleep Technique")), cfgStr(b, "Sleep Jmp Gadget"))) || (nf(arg(0)) == 8 && arg(1) == ite(techOf(cfgStr(b, "Sleep Technique")) != SLEEPOBF_NO_OBF && cfgBool(b, "Stack Duplication"), win32.TRUE, win32.FALSE)) || (nf(arg(0)) == 9 && arg(1) == proxyOf(cfgStr(b, "Proxy Loading"))) || (nf(arg(0)) == 10 && arg(1) == ite(cfgBool(b, "Indirect Syscall"), win32.TRUE, win32.FALSE)) || (nf(arg(0)) == 11 && arg(1) == amsiOf(cfgStr(b, "Amsi/Etw Patch"))))
 //@   guard-call strs: "AddWString" nf(arg(0)) < 12 ==> ((nf(arg(0)) == 4 && arg(1) == injStr(b, "Spawn64")) || (nf(arg(0)) == 5 && arg(1) == injStr(b, "Spawn32")))
-//@   guard-call wide: "AddInt64" nf(arg(0)) == 12 || nf(arg(0)) == 13
-//@   guard-call hours: "AddInt32" nf(arg(0)) >= 13 && arg(1) == WorkingHours
+//@   guard-call wide: "AddInt64" (isHttp(b) ==> (nf(arg(0)) == 12 && arg(1) == lh(b).Config.KillDate)) && (isSmb(b) ==> (nf(arg(0)) == 13 && arg(1) == ls(b).Config.KillDate)) && (isHttp(b) || isSmb(b))
+//@   guard-call hours: "AddInt32" arg(1) == WorkingHours && (isHttp(b) ==> nf(arg(0)) == 13) && (isSmb(b) ==> nf(arg(0)) == 14) && (isHttp(b) || isSmb(b))
+//@   guard-call hourssrc: "ParseWorkingHours" arg(0) == ite(isHttp(b), lh(b).Config.WorkingHours, ls(b).Config.WorkingHours)
+//@   guard-call lints: "AddInt" nf(arg(0)) >= 12 ==> (isHttp(b) && ((nf(arg(0)) == 15 && arg(1) == ite(lh(b).Config.HostRotation == "round-robin", 0, 1)) || (nf(arg(0)) == 16 && arg(1) == nHosts(b)) || exists(i, 0, nHosts(b), nf(arg(0)) == 18 + 2*i && arg(1) == hostPort(b, lh(b).Config.Hosts[i])) || (nf(arg(0)) == posA(b) && arg(1) == flag(lh(b).Config.Secure)) || (nf(arg(0)) == posA(b) + 2 && arg(1) == nHdrs(b)) || (nf(arg(0)) == posB(b) && arg(1) == nUris(b)) || (nf(arg(0)) == posC(b) && arg(1) == flag(lh(b).Config.Proxy.Enabled))))
+//@   guard-call lstrs: "AddWString" nf(arg(0)) >= 12 ==> ((isSmb(b) && nf(arg(0)) == 12 && arg(1) == "\\\\.\\pipe\\" + ls(b).Config.PipeName) || (isHttp(b) && ((nf(arg(0)) == 14 && arg(1) == "POST") || exists(i, 0, nHosts(b), nf(arg(0)) == 17 + 2*i && arg(1) == hostName(lh(b).Config.Hosts[i])) || (nf(arg(0)) == posA(b) + 1 && arg(1) == lh(b).Config.UserAgent) || exists(j, 0, nHdrs(b), nf(arg(0)) == posA(b) + 3 + j && ((len(lh(b).Config.Headers) == 0 && arg(1) == hdrItem(b, j)) || (inscope("Headers") && len(lh(b).Config.Headers) > 0 && arg(1) == Headers[j] && (hostHdr(b) || sameslice(Headers, lh(b).Config.Headers))))) || exists(j, 0, nUris(b), nf(arg(0)) == posB(b) + 1 + j && arg(1) == uriItem(b, j)) || (lh(b).Config.Proxy.Enabled && (nf(arg(0)) == posC(b) + 1 || (nf(arg(0)) == posC(b) + 2 && arg(1) == lh(b).Config.Proxy.Username) || (nf(arg(0)) == posC(b) + 3 && arg(1) == lh(b).Config.Proxy.Password))))))
+//@   ensures whole: (err == nil && isHttp(b)) ==> nf(DemonConfig) == posC(b) + 1 + ite(lh(b).Config.Proxy.Enabled, 3, 0)
+//@   ensures wholesmb: (err == nil && isSmb(b)) ==> nf(DemonConfig) == 15
 //@   loop "for _, host := range Config.Config.Hosts"
-//@     invariant past: nf(DemonConfig) >= 14 && DemonConfig != nil && b != nil
+//@     invariant at: nf(DemonConfig) == 17 + 2*idx__ && DemonConfig != nil && b != nil && Config == lh(b) && isHttp(b)
 // the listener chosen for the build is only read (a prohibition: no such store may exist)
 //@   guard-store listener: "(HTTP|SMB|External)\.Config" false
 //@   loop "for _, headers := range Headers"
-//@     invariant past: nf(DemonConfig) >= 14 && DemonConfig != nil && b != nil
+//@     invariant at: nf(DemonConfig) == posA(b) + 3 + idx__ && DemonConfig != nil && b != nil && Config == lh(b) && isHttp(b)
+//@     invariant items: len(Headers) == nHdrs(b) && len(lh(b).Config.Headers) > 0 && (hostHdr(b) || sameslice(Headers, lh(b).Config.Headers))
 //@   loop "for _, uri := range Config.Config.Uris"
-//@     invariant past: nf(DemonConfig) >= 14 && DemonConfig != nil && b != nil
+//@     invariant at: nf(DemonConfig) == posB(b) + 1 + idx__ && DemonConfig != nil && b != nil && Config == lh(b) && isHttp(b)
